@@ -239,7 +239,7 @@ def _tree_shard(sh: Dict[str, Any]) -> Dict[str, Any]:
 
 
 # ------------------------------------------------------------------ thread hops
-def hop_case(depth: int, observe_from: int, root: str = "task") -> Optional[str]:
+def hop_case(depth: int, observe_from: int, root: str = "task", two_loops: bool = False) -> Optional[str]:
     """root "task":    main task -> to_thread.run_sync(s1) -> from_thread.run(a1) -> to_thread.run_sync(s2) ... `depth` hops;
     root "foreign":  a thread that is NOT a Trio worker -> from_thread.run(a1, trio_token=...) -> to_thread.run_sync(s2)
                      -> from_thread.run(a3) ... `depth` hops (depth >= 1); what is extracted is the foreign thread.
@@ -331,7 +331,45 @@ def hop_case(depth: int, observe_from: int, root: str = "task") -> Optional[str]
                 if "innermost_event" in box:
                     box["innermost_event"].set()
 
-    trio.run(outer)
+    # two_loops: another Trio loop is already running in another thread (and touched Trio's run context first); the
+    # explicit token must select the loop the call was sent to
+    bg_stop, bg_ready = threading.Event(), threading.Event()
+
+    def other_loop() -> None:
+        async def amain() -> None:
+            bg_ready.set()
+            while not bg_stop.is_set():
+                await trio.sleep(0.002)
+
+        trio.run(amain)
+
+    bg: Optional[threading.Thread] = None
+    if two_loops:
+        bg = threading.Thread(target=other_loop, daemon=True)
+        bg.start()
+        bg_ready.wait(10)
+    try:
+        if two_loops:
+            # the loop under study runs in a FRESH thread, so that its thread-local run context is created after the other loop's
+            err: List[BaseException] = []
+
+            def run_it() -> None:
+                try:
+                    trio.run(outer)
+                except BaseException as ex:  # noqa
+                    err.append(ex)
+
+            th = threading.Thread(target=run_it, daemon=True)
+            th.start()
+            th.join(60)
+            if err:
+                raise err[0]
+        else:
+            trio.run(outer)
+    finally:
+        bg_stop.set()
+        if bg is not None:
+            bg.join(10)
     if "raised" in box:
         return f"extract raised {box['raised']}"
     st = box.get("stack")
@@ -374,11 +412,12 @@ def _hop_shard(sh: Dict[str, Any]) -> Dict[str, Any]:
         if root == "foreign" and d == 0:
             e.assume(False)
         o = e.choice("observe_from", 2)
-        why = hop_case(d, o, root)
+        two = e.flag("another_trio_loop_is_running") if root == "foreign" else False
+        why = hop_case(d, o, root, two)
         if len(samples) < 1:
-            samples.append({"hops": d, "observe_from": o, "root": root})
+            samples.append({"hops": d, "observe_from": o, "root": root, "two_loops": two})
         if why and len(cex) < 6:
-            cex.append({"hops": d, "observe_from": o, "root": root, "why": why, "f2": False})
+            cex.append({"hops": d, "observe_from": o, "root": root, "two_loops": two, "why": why, "f2": False})
 
     eng = Engine(max_seconds=600)
     eng.explore(harness)
@@ -396,7 +435,7 @@ def run(rep: Any, tier: str, seed: int) -> None:
     cap = len(shapes)
     rep.bounds = {"task trees": f"depth <= {depth}, fan-out <= {fan}, <= {nmax} nested nurseries per task, children from the {caps[0]} smallest sub-shapes, nurseries from the first {caps[1]} child multisets: {len(shapes)} shapes",
                   "blocking point": "innermost body or any nursery's __aexit__", "nursery body endings": BODY_ENDS,
-                  "recurse_child_tasks": [False, True], "hop chains": f"alternation depth 0..{3 if tier == 'quick' else 5}, rooted in a Trio task or in a foreign thread calling from_thread.run(trio_token=...), observed by another task and by the innermost level"}
+                  "recurse_child_tasks": [False, True], "hop chains": f"alternation depth 0..{3 if tier == 'quick' else 5}, rooted in a Trio task or in a foreign thread calling from_thread.run(trio_token=...) (with or without a second Trio loop running in another thread), observed by another task and by the innermost level"}
     rep.outside = ["trees beyond the bounds", "tasks blocked anywhere other than an Event wait / a nursery __aexit__", "free-running threads (every thread is parked)",
                    "Trio versions other than the installed one"]
     rep.assumptions = ["low solver leverage: finite shape product certified complete by the solver",
@@ -413,7 +452,7 @@ def run(rep: Any, tier: str, seed: int) -> None:
 
 def replay(c: Dict[str, Any]) -> Dict[str, Any]:
     if "hops" in c:
-        why = hop_case(c["hops"], c["observe_from"], c.get("root", "task"))
+        why = hop_case(c["hops"], c["observe_from"], c.get("root", "task"), bool(c.get("two_loops")))
         return {"status": "reproduces" if why else "not-reproduced", "detail": why}
     d, f, n, c1, c2 = c["bounds"]
     r = tree_case(task_shapes(d, f, n, c1, c2)[c["tree"]], c["body_end"], c["recurse"])
